@@ -152,7 +152,7 @@ func (dist *BinomialDistribution) GetParameters() Vector {
 }
 
 func (dist *BinomialDistribution) SetParameters(parameters Vector) error {
-  t := parameters.At(0)
+  t := parameters.At(0).CloneScalar()
   t.Exp(t)
   n := parameters.At(1)
   if tmp, err := NewBinomialDistribution(t, int(n.GetFloat64())); err != nil {
